@@ -311,7 +311,23 @@ func runPublicKey(c *engine.Chooser, cfg string, p rlwe.Parameters) {
 		a, _ := rk.CoeffsQP(p.RingQP(), pk.Value[1], p.MaxLevelQ(), p.MaxLevelP(), true, true)
 		seen[rk.HashPoly(a)] = true
 	}
-	c.Count(reps)
+	// the FIRST public key of fresh key generators, judged on its own (see stat.go: first draws)
+	var first rk.Pool
+	for r := 0; r < reps; r++ {
+		kg := rlwe.NewKeyGenerator(p)
+		sk, pk := kg.GenKeyPairNew()
+		e, _ := rk.PhaseQP(rt, p.RingQP(), pk.Value[0], pk.Value[1], p.MaxLevelQ(), p.MaxLevelP(), true, true, rk.Secret(p, sk))
+		if ref.InfNorm(e).Cmp(be) > 0 {
+			c.Fail(gen+"noise-upper", "%s: first public key of a fresh KeyGenerator: error of %d bits", cfg, ref.InfNorm(e).BitLen())
+			return
+		}
+		first.Add(e)
+	}
+	if first.NonZero == 0 || !inWindow(first.Std(), se) {
+		c.Fail(gen+"fresh-object-first-draw/sigma-window", "%s: FIRST public key of %d fresh KeyGenerators: empirical σ %.4f (nonzero %d/%d) outside [σ/2,2σ] of the nominal %.4f", cfg, reps, first.Std(), first.NonZero, first.N, se)
+		return
+	}
+	c.Count(2 * reps)
 	c.Cover("keys-kind", "pk")
 	if pool.NonZero == 0 || !inWindow(pool.Std(), se) {
 		c.Fail(gen+"sigma-window", "%s: empirical σ %.4f (nonzero %d/%d) of the public-key error outside [σ/2,2σ] of the nominal %.4f", cfg, pool.Std(), pool.NonZero, pool.N, se)
